@@ -391,7 +391,7 @@ var clauseKeywords = map[string]bool{
 	"use": true, "split": true, "reveal": true, "inline": true, "induction": true, "trigger": true,
 	"unroll": true, "assert": true, "inst": true, "nounfold": true, "unfold": true, "timeout": true,
 	"bounded": true, "havocs": true, "pure": true, "reads": true, "modifies": true, "decreases": true,
-	"effects": true, "case": true, "fuel": true, "mapentries": true, "dyntype": true, "witness-gen": true, "defines": true, "establishes": true, "instdepth": true, "useret": true, "initphase": true, "note": true,
+	"effects": true, "case": true, "fuel": true, "assertret": true, "splitret": true, "mapentries": true, "dyntype": true, "witness-gen": true, "defines": true, "establishes": true, "instdepth": true, "useret": true, "initphase": true, "note": true,
 }
 
 // ParseSpecFile reads a contract file. Lines of interest start with "//@" (in .go files) or are
@@ -577,7 +577,7 @@ func ParseSpecFile(path string, pkgPath string) (*SpecFile, error) {
 		default:
 			c := &Clause{Kind: kw, Text: rest, Line: loc}
 			switch kw {
-			case "requires", "ensures", "invariant", "assert", "inst", "case":
+			case "requires", "ensures", "invariant", "assert", "inst", "case", "assertret":
 				e, err := ParseExpr(rest)
 				if err != nil {
 					return nil, perr(l, "%v", err)
@@ -600,7 +600,7 @@ func ParseSpecFile(path string, pkgPath string) (*SpecFile, error) {
 					curLem.Trigger = call
 				}
 				curLem.Clauses = append(curLem.Clauses, c)
-			case curL != nil && kw != "requires" && kw != "ensures" && kw != "assigns" && kw != "useret":
+			case curL != nil && kw != "requires" && kw != "ensures" && kw != "assigns" && kw != "useret" && kw != "splitret" && kw != "assertret":
 				curL.Clauses = append(curL.Clauses, c)
 			case curF != nil:
 				curF.Clauses = append(curF.Clauses, c)
